@@ -1106,6 +1106,7 @@ pub struct FnSpec {
     pub head: Option<String>,
     pub drops: Vec<(usize, String)>,
     pub open: Vec<String>,
+    pub hide: Vec<String>,
     pub guards: bool,
     pub refpats: bool,
     pub stubs: Vec<(usize, String, String)>, // R13: (n, let-anchor, stand-in call)
@@ -1441,6 +1442,13 @@ impl<'a> Ctx<'a> {
                     edits.push(ins(*be, " }".into()));
                 }
             }
+            if !fs.hide.is_empty() {
+                // hide (fuel 0) ghost definitions this function's proof never needs to unfold (ghost only; a Verus
+                // function header: it must be the first thing in the body; it can only remove facts from the context)
+                let r: Vec<String> = fs.hide.iter().map(|x| format!("hide({x});")).collect();
+                self.cnt.bump("R7_hint");
+                edits.push(ins(block.start + 1, format!("\n        {}", r.join(" "))));
+            }
             if !fs.open.is_empty() {
                 // reveal opaque ghost definitions for this function's proof (ghost only)
                 let r: Vec<String> = fs.open.iter().map(|x| format!("reveal({x});")).collect();
@@ -1750,6 +1758,13 @@ impl<'a> Gen<'a> {
                                         for m in ps[1..].iter().flat_map(|x| x.split(',')) {
                                             if !m.is_empty() {
                                                 fs.open.push(m.to_string());
+                                            }
+                                        }
+                                    }
+                                    "hide" => {
+                                        for m in ps[1..].iter().flat_map(|x| x.split(',')) {
+                                            if !m.is_empty() {
+                                                fs.hide.push(m.to_string());
                                             }
                                         }
                                     }
